@@ -173,6 +173,13 @@ func (s panicSpec) fire() {
 	case 8:
 		// an error that is also a Formatter: the payload is printed like any operand (its Format method wins)
 		panic(tErrFmter{"E:" + s.msg, s.msg})
+	case 9:
+		// a runtime error whose text depends on the (unsafe) data: an index taken from the message
+		idx := 1
+		if len(s.msg) > 0 {
+			idx += int(s.msg[0])
+		}
+		_ = make([]int, 1)[idx]
 	default:
 		panic(tBadPayload{msg: s.msg, k: s.k})
 	}
